@@ -233,6 +233,13 @@ func c11Run(c *Ctx) {
 		}
 	}
 	exifA, xmpA, prevA := exifSpec.New(c.Dev, "exif"), xmpSpec.New(c.Dev, "xmp"), prevSpec.New(c.Dev, "prev")
+	if x := c.L("act:x"); x.Chance(1, 6) {
+		// a callback that steps back with a negative Discard before it leaves (what the library's own
+		// Exif reader does for overlapping values)
+		k := 1 + x.Intn(64)
+		[]*world.Actor{exifA, xmpA, prevA}[x.Intn(3)].NegDiscard = k
+		c.Inc("fault:callback-negative-discard:configured")
+	}
 	mkProbe(exifA, exifSites)
 	mkProbe(xmpA, xmpSites)
 	mkProbe(prevA, prevSites)
